@@ -142,7 +142,11 @@ def datasets(n, p, rng, tier):
     sig = base_signals(n, rng, tier)
     if p == 1:
         return [(lab, x.reshape(-1, 1)) for lab, x in sig]
-    out = []
+    # weak but dense shifts: every column moves a little, no single column stands out (subset inference must still name columns)
+    out = [(f"dense-weak{c}", np.full((n, p), c)) for c in (1.34, 1.5, 2.0)]
+    X = np.zeros((n, p))
+    X[n // 2:] = 1.2
+    out.append(("dense-weak-step", X))
     for i, (lab, x) in enumerate(sig):
         v = i % 3
         X = np.zeros((n, p))
@@ -285,6 +289,20 @@ def run(tier="quick", seed=0, repo="/repo"):
                             rec.case((sj, n, p, lab), k != 0,
                                      {"spec": spec, "n": n, "p": p, "data": lab, "detections": k} if k > 0 and (ci + di) % 97 == 0 else None)
                             rec.group(det, k != 0)
+    # crafted MVCAPA cases with the DEFAULT penalty scales: a dense shift that is detected although no single column beats the
+    # per-column (sparse) penalty - the affected-column list must still be non-empty, distinct and valid
+    crafted = [("dense-weak 2x4", np.full((2, 4), 1.5), {"min_segment_length": 2, "max_segment_length": 2}),
+               ("dense-weak 3x4", np.full((3, 4), 1.34), {"min_segment_length": 2, "max_segment_length": 3}),
+               ("dense-weak 3x4/m3", np.full((3, 4), 1.34), {"min_segment_length": 3, "max_segment_length": 3})]
+    Xd = np.zeros((120, 10))
+    Xd[60:70] = 0.9
+    crafted.append(("dense-weak 120x10", Xd, {"min_segment_length": 2, "max_segment_length": 20}))
+    for lab, X, params in crafted:
+        spec = {"det": "MVCAPA", "params": params}
+        ran, k = check_case(rec, spec, X, repo)
+        if ran:
+            rec.case((json.dumps(spec, sort_keys=True), X.shape, lab), k != 0, {"spec": spec, "data": lab, "detections": k})
+            rec.group("MVCAPA", k != 0)
     check_formatters(rec, 5 if quick else 7)
     return rec.result(RULE, f"7 detectors; n from the documented minimum length to {8 if quick else 11}; p in 1..4; grid of boundary and interior "
                             f"hyper-parameters; rotation so that each dataset meets ~{6 if quick else 30} configurations per detector (p=1), fewer for p>1; formatters: all detection lists, n <= "
